@@ -40,14 +40,14 @@ theorem Sub.lookup_right {st : StructTable} {t t' : Ty} (h : Sub st t t') (ps : 
 /-! ## L1 -/
 
 section L1
-variable (st : StructTable) (hst : StructsOk st) (F : Nat) (hF : NarrowFix st F) (ρ : Store) (f : ForkAssign)
+variable (st : StructTable) (hst : StructsOk st) (F : Nat) (hF : NarrowFix st F) (ρ : Store)
 include hst hF
 
 mutual
 theorem narrow_evalRT :
-    ∀ (r : RExp) (t t' : Ty), HasTyR st t r → Sub st t t' →
+    ∀ (r : RExp) (t t' : Ty) (f : ForkAssign), HasTyR st t r → Sub st t t' →
       narrow st F t' (evalRT st F ρ f t r) = evalRT st F ρ f t' r ∧ HasTyR st t' r
-  | .lit j, t, t', h, hs => by
+  | .lit j, t, t', f, h, hs => by
     simp only [HasTyR, LitOk] at h
     cases h with
     | inl h => subst h; simp [evalRT, narrow_null hF, HasTyR, LitOk]
@@ -60,7 +60,7 @@ theorem narrow_evalRT :
       subst ha; subst hm
       simp only [evalRT, narrow_scalar hF b hl, HasTyR, LitOk]
       exact ⟨trivial, Or.inr ⟨⟨s, rfl⟩, rfl, rfl, hl⟩⟩
-  | .arr xs, t, t', h, hs => by
+  | .arr xs, t, t', f, h, hs => by
     obtain ⟨b, m, a⟩ := t
     obtain ⟨b', m', a'⟩ := t'
     simp only [HasTyR] at h
@@ -70,10 +70,10 @@ theorem narrow_evalRT :
     cases a with
     | zero => exact absurd rfl h.1
     | succ n =>
-      have ih := narrow_evalRTList xs ⟨b, m, n⟩ ⟨b', m, n⟩ h.2 (hs.redim m n)
+      have ih := narrow_evalRTList xs ⟨b, m, n⟩ ⟨b', m, n⟩ f h.2 (hs.redim m n)
       simp only [evalRT, Nat.add_sub_cancel, narrow_arr hF, ih.1, HasTyR]
       exact ⟨trivial, by simp, ih.2⟩
-  | .map kvs, t, t', h, hs => by
+  | .map kvs, t, t', f, h, hs => by
     obtain ⟨b, m, a⟩ := t
     obtain ⟨b', m', a'⟩ := t'
     simp only [HasTyR] at h
@@ -84,11 +84,11 @@ theorem narrow_evalRT :
     cases m with
     | zero => exact absurd rfl hm
     | succ k =>
-      have ih := narrow_evalRTFields kvs ⟨b, 0, k⟩ ⟨b', 0, k⟩ hk (hs.redim 0 k)
+      have ih := narrow_evalRTFields kvs ⟨b, 0, k⟩ ⟨b', 0, k⟩ f hk (hs.redim 0 k)
       have c : ((0 : Nat) == 0 && (k + 1 != 0)) = true := by simp
       simp only [evalRT, c, if_true, Nat.add_sub_cancel, narrow_obj hF, ih.1, HasTyR]
       exact ⟨trivial, trivial, by simp, ih.2⟩
-  | .struct kvs, t, t', h, hs => by
+  | .struct kvs, t, t', f, h, hs => by
     obtain ⟨b, m, a⟩ := t
     obtain ⟨b', m', a'⟩ := t'
     simp only [HasTyR] at h
@@ -121,7 +121,7 @@ theorem narrow_evalRT :
       | none => simp [he] at hsome
       | some e =>
         simp only [Option.map_some, Option.getD_some]
-        exact (narrow_evalRTMembers ps kvs hmem p'.name e (mem_of_lookup kvs _ _ he) p p'.ty hfind hsub).1
+        exact (narrow_evalRTMembers ps kvs f hmem p'.name e (mem_of_lookup kvs _ _ he) p p'.ty hfind hsub).1
     · simp only [HasTyR]
       refine ⟨trivial, trivial, ps', hl', ?_, ?_⟩
       · apply HasTyRMembers_of_mem
@@ -133,46 +133,50 @@ theorem narrow_evalRT :
           obtain ⟨p, hp, hpn, hfind, hsub⟩ := hview p' hp'
           rw [hpk] at hfind
           rw [memberTy_find ps' k p' hf']
-          exact (narrow_evalRTMembers ps kvs hmem k e hke p p'.ty hfind hsub).2
+          exact (narrow_evalRTMembers ps kvs f hmem k e hke p p'.ty hfind hsub).2
       · intro p' hp'
         obtain ⟨p, hp, hpn, _, _⟩ := hview p' hp'
         have := hall p hp
         rwa [hpn] at this
-  | .ref n sty path, t, t', h, hs => by
+  | .ref n sty path, t, t', f, h, hs => by
     simp only [HasTyR] at h
     simp only [evalRT, HasTyR]
     exact ⟨narrow_narrow hst hF hs _, Sub.trans hst h hs⟩
-  | .split _ _ _, _, _, h, _ => by simp [HasTyR] at h
-  | .merge _ _ _, _, _, h, _ => by simp [HasTyR] at h
-  | .disabled _ _, _, _, h, _ => by simp [HasTyR] at h
+  | .split _ _ _, _, _, _, h, _ => by simp [HasTyR] at h
+  | .merge _ _ _, _, _, _, h, _ => by simp [HasTyR] at h
+  | .disabled _ _, _, _, _, h, _ => by simp [HasTyR] at h
+  | .fork c ix e, t, t', f, h, hs => by
+    simp only [HasTyR] at h
+    simp only [evalRT, HasTyR]
+    exact narrow_evalRT e t t' (fset f c ix) h hs
 theorem narrow_evalRTList :
-    ∀ (rs : List RExp) (t t' : Ty), HasTyRList st t rs → Sub st t t' →
+    ∀ (rs : List RExp) (t t' : Ty) (f : ForkAssign), HasTyRList st t rs → Sub st t t' →
       (evalRTList st F ρ f t rs).map (narrow st F t') = evalRTList st F ρ f t' rs ∧ HasTyRList st t' rs
-  | [], _, _, _, _ => by simp [evalRTList, HasTyRList]
-  | r :: rs, t, t', h, hs => by
+  | [], _, _, _, _, _ => by simp [evalRTList, HasTyRList]
+  | r :: rs, t, t', f, h, hs => by
     simp only [HasTyRList] at h
-    have h1 := narrow_evalRT r t t' h.1 hs
-    have h2 := narrow_evalRTList rs t t' h.2 hs
+    have h1 := narrow_evalRT r t t' f h.1 hs
+    have h2 := narrow_evalRTList rs t t' f h.2 hs
     simp only [evalRTList, List.map_cons, h1.1, h2.1, HasTyRList]
     exact ⟨trivial, h1.2, h2.2⟩
 theorem narrow_evalRTFields :
-    ∀ (kvs : List (String × RExp)) (t t' : Ty), HasTyRFields st t kvs → Sub st t t' →
+    ∀ (kvs : List (String × RExp)) (t t' : Ty) (f : ForkAssign), HasTyRFields st t kvs → Sub st t t' →
       (evalRTFields st F ρ f t kvs).map (fun kv => (kv.1, narrow st F t' kv.2)) = evalRTFields st F ρ f t' kvs ∧
       HasTyRFields st t' kvs
-  | [], _, _, _, _ => by simp [evalRTFields, HasTyRFields]
-  | (k, r) :: rs, t, t', h, hs => by
+  | [], _, _, _, _, _ => by simp [evalRTFields, HasTyRFields]
+  | (k, r) :: rs, t, t', f, h, hs => by
     simp only [HasTyRFields] at h
-    have h1 := narrow_evalRT r t t' h.1 hs
-    have h2 := narrow_evalRTFields rs t t' h.2 hs
+    have h1 := narrow_evalRT r t t' f h.1 hs
+    have h2 := narrow_evalRTFields rs t t' f h.2 hs
     simp only [evalRTFields, List.map_cons, h1.1, h2.1, HasTyRFields]
     exact ⟨trivial, h1.2, h2.2⟩
 theorem narrow_evalRTMembers (ps : List Param) :
-    ∀ (kvs : List (String × RExp)), HasTyRMembers st ps kvs →
+    ∀ (kvs : List (String × RExp)) (f : ForkAssign), HasTyRMembers st ps kvs →
       ∀ (k : String) (e : RExp), (k, e) ∈ kvs → ∀ (p : Param) (t' : Ty),
         ps.find? (fun q => q.name == k) = some p → Sub st p.ty t' →
         narrow st F t' (evalRT st F ρ f p.ty e) = evalRT st F ρ f t' e ∧ HasTyR st t' e
-  | [], _, _, _, h, _, _, _, _ => by simp at h
-  | (k', e') :: es, hm, k, e, h, p, t', hf, hs => by
+  | [], _, _, _, _, h, _, _, _, _ => by simp at h
+  | (k', e') :: es, f, hm, k, e, h, p, t', hf, hs => by
     simp only [HasTyRMembers] at hm
     simp only [List.mem_cons, Prod.mk.injEq] at h
     cases h with
@@ -180,8 +184,8 @@ theorem narrow_evalRTMembers (ps : List Param) :
       obtain ⟨rfl, rfl⟩ := h
       have hty := hm.1 (by simp [hf])
       rw [memberTy_find ps k p hf] at hty
-      exact narrow_evalRT e p.ty t' hty hs
-    | inr h => exact narrow_evalRTMembers ps es hm.2 k e h p t' hf hs
+      exact narrow_evalRT e p.ty t' f hty hs
+    | inr h => exact narrow_evalRTMembers ps es f hm.2 k e h p t' hf hs
 end
 
 end L1
@@ -227,7 +231,7 @@ theorem Sub.projTy1 {st : StructTable} (hst : StructsOk st) {t0 t : Ty} (h : Sub
     exact hsub.redim _ _
 
 section P
-variable (st : StructTable) (hst : StructsOk st) (F : Nat) (hF : NarrowFix st F) (ρ : Store) (f : ForkAssign)
+variable (st : StructTable) (hst : StructsOk st) (F : Nat) (hF : NarrowFix st F) (ρ : Store)
 include hst hF
 
 theorem FieldOk.redim {st : StructTable} {b : String} {m a : Nat} {fld : String}
@@ -235,10 +239,10 @@ theorem FieldOk.redim {st : StructTable} {b : String} {m a : Nat} {fld : String}
 
 mutual
 theorem proj1_evalRT :
-    ∀ (r : RExp) (t : Ty) (fld : String), HasTyR st t r → FieldOk st t fld →
+    ∀ (r : RExp) (t : Ty) (fld : String) (f : ForkAssign), HasTyR st t r → FieldOk st t fld →
       proj1 t fld (evalRT st F ρ f t r) = evalRT st F ρ f (projTy1 st t fld) (bpR fld r) ∧
       HasTyR st (projTy1 st t fld) (bpR fld r)
-  | .lit j, t, fld, h, hfo => by
+  | .lit j, t, fld, f, h, hfo => by
     simp only [HasTyR, LitOk] at h
     cases h with
     | inl h => subst h; simp [evalRT, bpR, proj1_null, HasTyR, LitOk]
@@ -247,19 +251,19 @@ theorem proj1_evalRT :
       obtain ⟨ft, hft, _⟩ := hfo
       obtain ⟨ps, _, hl2, _⟩ := fieldTy_mem st _ _ _ hft
       rw [hl] at hl2; cases hl2
-  | .arr xs, t, fld, h, hfo => by
+  | .arr xs, t, fld, f, h, hfo => by
     obtain ⟨b, m, a⟩ := t
     simp only [HasTyR] at h
     cases a with
     | zero => exact absurd rfl h.1
     | succ n =>
-      have ih := proj1_evalRTList xs ⟨b, m, n⟩ fld h.2 hfo
+      have ih := proj1_evalRTList xs ⟨b, m, n⟩ fld f h.2 hfo
       rw [projTy1_arr]
       generalize Martian.Dataflow.projTy1 st ⟨b, m, n⟩ fld = T at ih ⊢
       obtain ⟨B, M, A⟩ := T
       simp only [evalRT, bpR, Nat.add_sub_cancel, proj1_arr, ih.1, HasTyR]
       exact ⟨trivial, by simp, ih.2⟩
-  | .map kvs, t, fld, h, hfo => by
+  | .map kvs, t, fld, f, h, hfo => by
     obtain ⟨b, m, a⟩ := t
     simp only [HasTyR] at h
     obtain ⟨ha, hm, hk⟩ := h
@@ -276,7 +280,7 @@ theorem proj1_evalRT :
         cases h'
         exact hmap (by simp)
       obtain ⟨e1, e2⟩ := projTy1_map st b k fld hnm
-      have ih := proj1_evalRTFields kvs ⟨b, 0, k⟩ fld hk ⟨ft, hft, by simp⟩
+      have ih := proj1_evalRTFields kvs ⟨b, 0, k⟩ fld f hk ⟨ft, hft, by simp⟩
       rw [e1]
       rw [e2] at ih
       have c : ((0 : Nat) == 0 && ((Martian.Dataflow.projTy1 st ⟨b, 0, k⟩ fld).arrDim + 1 != 0)) = true := by simp
@@ -284,7 +288,7 @@ theorem proj1_evalRT :
       simp
       refine ⟨?_, ih.2⟩
       rw [proj1_obj, ih.1]
-  | .struct kvs, t, fld, h, hfo => by
+  | .struct kvs, t, fld, f, h, hfo => by
     obtain ⟨b, m, a⟩ := t
     simp only [HasTyR] at h
     obtain ⟨ha, hm, ps, hl, hmem, hall⟩ := h
@@ -310,7 +314,7 @@ theorem proj1_evalRT :
       simp only [proj1, atBase, mapArr]
       rw [field_map_find ps _ fld p hfind, lookup_evalRTMembers, hpn, he, memberTy_find ps fld p hfind, hpt]
       rfl
-  | .ref n sty path, t, fld, h, hfo => by
+  | .ref n sty path, t, fld, f, h, hfo => by
     simp only [HasTyR] at h
     obtain ⟨ft, hft, hmap⟩ := hfo
     obtain ⟨d1, d2⟩ := h.dims
@@ -320,36 +324,40 @@ theorem proj1_evalRT :
         proj1_dims (pathTy st sty path) t d1 d2]
     · rw [pathTy_append]
       exact Sub.projTy1 hst h fld ft hft
-  | .split _ _ _, _, _, h, _ => by simp [HasTyR] at h
-  | .merge _ _ _, _, _, h, _ => by simp [HasTyR] at h
-  | .disabled _ _, _, _, h, _ => by simp [HasTyR] at h
+  | .split _ _ _, _, _, _, h, _ => by simp [HasTyR] at h
+  | .merge _ _ _, _, _, _, h, _ => by simp [HasTyR] at h
+  | .disabled _ _, _, _, _, h, _ => by simp [HasTyR] at h
+  | .fork c ix e, t, fld, f, h, hfo => by
+    simp only [HasTyR] at h
+    simp only [evalRT, bpR, HasTyR]
+    exact proj1_evalRT e t fld (fset f c ix) h hfo
 theorem proj1_evalRTList :
-    ∀ (rs : List RExp) (t : Ty) (fld : String), HasTyRList st t rs → FieldOk st t fld →
+    ∀ (rs : List RExp) (t : Ty) (fld : String) (f : ForkAssign), HasTyRList st t rs → FieldOk st t fld →
       (evalRTList st F ρ f t rs).map (proj1 t fld) = evalRTList st F ρ f (projTy1 st t fld) (bpRList fld rs) ∧
       HasTyRList st (projTy1 st t fld) (bpRList fld rs)
-  | [], _, _, _, _ => by simp [evalRTList, bpRList, HasTyRList]
-  | r :: rs, t, fld, h, hfo => by
+  | [], _, _, _, _, _ => by simp [evalRTList, bpRList, HasTyRList]
+  | r :: rs, t, fld, f, h, hfo => by
     simp only [HasTyRList] at h
-    have h1 := proj1_evalRT r t fld h.1 hfo
-    have h2 := proj1_evalRTList rs t fld h.2 hfo
+    have h1 := proj1_evalRT r t fld f h.1 hfo
+    have h2 := proj1_evalRTList rs t fld f h.2 hfo
     simp only [evalRTList, bpRList, List.map_cons, h1.1, h2.1, HasTyRList]
     exact ⟨trivial, h1.2, h2.2⟩
 theorem proj1_evalRTFields :
-    ∀ (kvs : List (String × RExp)) (t : Ty) (fld : String), HasTyRFields st t kvs → FieldOk st t fld →
+    ∀ (kvs : List (String × RExp)) (t : Ty) (fld : String) (f : ForkAssign), HasTyRFields st t kvs → FieldOk st t fld →
       (evalRTFields st F ρ f t kvs).map (fun kv => (kv.1, proj1 t fld kv.2))
         = evalRTFields st F ρ f (projTy1 st t fld) (bpRFields fld kvs) ∧
       HasTyRFields st (projTy1 st t fld) (bpRFields fld kvs)
-  | [], _, _, _, _ => by simp [evalRTFields, bpRFields, HasTyRFields]
-  | (k, r) :: rs, t, fld, h, hfo => by
+  | [], _, _, _, _, _ => by simp [evalRTFields, bpRFields, HasTyRFields]
+  | (k, r) :: rs, t, fld, f, h, hfo => by
     simp only [HasTyRFields] at h
-    have h1 := proj1_evalRT r t fld h.1 hfo
-    have h2 := proj1_evalRTFields rs t fld h.2 hfo
+    have h1 := proj1_evalRT r t fld f h.1 hfo
+    have h2 := proj1_evalRTFields rs t fld f h.2 hfo
     simp only [evalRTFields, bpRFields, List.map_cons, h1.1, h2.1, HasTyRFields]
     exact ⟨trivial, h1.2, h2.2⟩
 end
 
 /-- along a whole path -/
-theorem projPath_evalRT (path : List String) :
+theorem projPath_evalRT (f : ForkAssign) (path : List String) :
     ∀ (r : RExp) (t : Ty), HasTyR st t r → PathOk st t path →
       projPath st t path (evalRT st F ρ f t r) = evalRT st F ρ f (pathTy st t path) (bpPath path r) ∧
       HasTyR st (pathTy st t path) (bpPath path r) := by
@@ -358,7 +366,7 @@ theorem projPath_evalRT (path : List String) :
   | cons g rest ih =>
     intro r t h hp
     simp only [PathOk] at hp
-    have h1 := proj1_evalRT st hst F hF ρ f r t g h hp.1
+    have h1 := proj1_evalRT st hst F hF ρ r t g f h hp.1
     have h2 := ih (bpR g r) (projTy1 st t g) h1.2 hp.2
     simp only [projPath, pathTy, bpPath, h1.1]
     exact h2
